@@ -166,6 +166,7 @@ Proof.
         try (apply Hpush; reflexivity).
     + destruct (alookup (r_mid r) (rmap s)) as [o|] eqn:Er; [|repeat strip].
       destruct (HK _ _ (or_introl (alookup_In _ _ _ Er))) as (c & Ec & Em).
+      match goal with |- context [if ?b then _ else _] => destruct b end; [repeat strip|].
       repeat strip. intros c0 Hc0. change (getop s o = Some c0) in Hc0. rewrite Ec in Hc0. injection Hc0 as <-.
       apply cext_fill. unfold mine. now symmetry.
   - (* DrvEnd *) destruct (is_running s); [apply sext_end_driver|apply sext_refl].
@@ -241,7 +242,7 @@ Proof.
   1, 2: destruct (is_running s); cbn [negb]; [|now left];
         destruct (win s) as [|r w]; [now left|]; destruct (alookup (r_mid r) (smap s)) as [o|];
         [ destruct (r_kind r); destruct (getop s o) as [c|]; try destruct (o_rx c); cbn [negb]; brk; msimp; intros H; fin H
-        | destruct (alookup (r_mid r) (rmap s)); msimp; intros H; fin H ].
+        | destruct (alookup (r_mid r) (rmap s)); brk; msimp; intros H; fin H ].
   (* DrvEnd *)
   1, 2: destruct (is_running s); [msimp; intros []|now left].
   (* ServerSend *)
